@@ -66,6 +66,19 @@ def full_state(system):
     return st
 
 
+def history_equiv(ha, hb):
+    """two training histories agree: same choices, evaluation counts and costs exactly; the error indicator (a relative difference of nearly
+    equal predictions, recomputed after a load) up to rounding"""
+    if len(ha) != len(hb):
+        return False
+    for a, b in zip(ha, hb):
+        if any(a[k] != b[k] for k in ('component', 'alpha', 'beta', 'num_evals', 'added_cost')):
+            return False
+        if not systems.floats_close([a['added_error']], [b['added_error']], rtol=1e-9, atol=1e-13):
+            return False
+    return True
+
+
 def diff_states(a, b):
     out = []
     for c in a['components']:
@@ -169,6 +182,8 @@ def run(ctx: Ctx):
                         ctx.violate('C12:resume-raises', f'continuing training from the file saved at iteration {it} raised {type(e).__name__}: {e}', case); continue
                     st2 = full_state(loaded)
                     d2 = diff_states(snaps[it + 1], st2)
+                    if d2 == ['history'] and history_equiv(snaps[it + 1]['history'], st2['history']):
+                        d2 = []
                     if d2:
                         ctx.violate('C12:resumed-training-differs', f'one more step from the loaded iteration {it}: {d2} differ from the uninterrupted run', case)
                     ctx.count('resumes')
